@@ -164,9 +164,24 @@ void RecBackend::Solve() {
   if (const char *l = std::getenv("RECSOLVER_LINKS")) if (*l == '1') RecLogFinalLinks(GetValuePresolver(), st_);  // C20: RECSOLVER_LINKS=1
   DumpGraphOnce();                                         // C04: RECSOLVER_C04=1 (event `linkgraph`)
   if (std::getenv("RECSOLVER_C04")) rec_c04::RunCalls(GetValuePresolver(), st_);   // C04: RECSOLVER_C04_CALLS=<file>
+  if (st_.n_altsol > 0 && need_multiple_solutions()) {     // C09: script `altsol N`
+    for (int k = 0; k < st_.n_altsol; ++k) {
+      auto mv = GetValuePresolver().PostsolveSolution(
+            { { std::vector<double>(st_.nvars, 0.0) }, {}, std::vector<double>{ double(k) } });
+      ReportIntermediateSolution({ mv.GetVarValues()(), mv.GetConValues()(), mv.GetObjValues()() });
+    }
+  }
   if (st_.throw_in_solve == 1) throw std::runtime_error("scripted runtime_error in Solve");
-  if (st_.throw_in_solve == 2) throw mp::Error("scripted mp::Error in Solve", st_.code);
+  if (st_.throw_in_solve == 2) Abort(st_.code, "scripted mp::Error in Solve");
   if (st_.throw_in_solve == 3) throw mp::UnsupportedError("scripted UnsupportedError in Solve");
+}
+
+void RecBackend::DoWriteProblem(const std::string &name) {
+  st_.Log("{\"ev\":\"writeproblem\",\"file\":" + rec::str(name.c_str()) + "}");
+  FILE *f = std::fopen(name.c_str(), "w");
+  if (!f) MP_RAISE("recsolver: cannot write model file " + name);
+  std::fprintf(f, "recsolver model: %d vars, %d linear, %d quadratic, %d other constraints\n", st_.nvars, st_.n_lin, st_.n_quad, st_.n_other);
+  std::fclose(f);
 }
 
 void RecBackend::ReportResults() {
